@@ -7,7 +7,7 @@ CONSTANTS
   Anisos <- AnisoAll
   Sills = {2, 5}
   Layouts = {"spread", "cluster", "nodes", "outside"}
-  Keep <- KeepThor
+  Keep <- KeepAll
   HeavyEvery = 3
   PolyCoefs <- Coefs
   PolyDiags <- Diags
